@@ -41,6 +41,9 @@ type Frame struct {
 	ghost    map[string]Val
 	loopEntry map[int]*State // state at loop entry (before havoc), for entry(...) in invariants
 	curLoop  int
+	iterStart map[int]*State
+	iterEnv  map[int]map[ssa.Value]Val
+	iterPhis map[int]map[ssa.Value]Val
 }
 
 func (f *Frame) Clone() *Frame {
@@ -394,6 +397,12 @@ func (vc *VC) jump(fr *Frame, st *State, from, to *ssa.BasicBlock) []Outcome {
 			}
 			fr.curLoop = li.Ordinal
 			vc.checkLoopInv(fr, st, li, lc, "inv-pres")
+			if vc.dry == 0 {
+				for _, sc := range lc.Steps {
+					t := vc.evalSpecTerm(fr, st, sc.Expr, nil)
+					vc.addObligation(st, "step", fmt.Sprintf("loop%d.%s", li.Ordinal, sc.Label), vc.posOf(li.Header.Instrs[0].Pos()), t, sc.Props)
+				}
+			}
 			if lc.Decreases != nil && vc.dry == 0 {
 				m := vc.evalSpecTerm(fr, st, lc.Decreases, nil)
 				m0 := fr.loopM0[to]
@@ -420,13 +429,25 @@ func (vc *VC) jump(fr *Frame, st *State, from, to *ssa.BasicBlock) []Outcome {
 		fr.ghost["iter"] = vc.idx(0)
 		vc.checkLoopInv(fr, st, li, lc, "inv-init")
 		mod := vc.loopModified(fr, st, li, to, len(phis))
+		headVals := map[ssa.Value]Val{}
 		for _, phi := range phis {
 			nm := phi.Comment
 			if nm == "" {
 				nm = phi.Name()
 			}
 			fr.env[phi] = vc.havocVal(fr.env[phi], phi.Type(), nm, st)
+			headVals[phi] = fr.env[phi]
 		}
+		if fr.iterPhis == nil {
+			fr.iterPhis = map[int]map[ssa.Value]Val{}
+		} else {
+			np := make(map[int]map[ssa.Value]Val, len(fr.iterPhis)+1)
+			for k, v := range fr.iterPhis {
+				np[k] = v
+			}
+			fr.iterPhis = np
+		}
+		fr.iterPhis[li.Ordinal] = headVals
 		for _, c := range mod {
 			vc.havocCell(st, c)
 		}
@@ -447,6 +468,18 @@ func (vc *VC) jump(fr *Frame, st *State, from, to *ssa.BasicBlock) []Outcome {
 			fr.loopM0[to] = vc.evalSpecTerm(fr, st, lc.Decreases, nil)
 		}
 		fr.loopIn[to] = true
+		// snapshot of the state at the head of this (arbitrary) iteration, for prev(...)
+		if fr.iterStart == nil {
+			fr.iterStart = map[int]*State{}
+		} else {
+			ns := make(map[int]*State, len(fr.iterStart)+1)
+			for k, v := range fr.iterStart {
+				ns[k] = v
+			}
+			fr.iterStart = ns
+		}
+		fr.iterStart[li.Ordinal] = st.Clone()
+		fr.iterEnv = map[int]map[ssa.Value]Val{}
 		return vc.execFrom(fr, st, to, len(phis))
 	}
 	if li != nil {
@@ -1280,8 +1313,10 @@ func (vc *VC) sliceOp(fr *Frame, st *State, x *ssa.Slice) (forks []*State) {
 	} else {
 		lo = vc.idx(0)
 	}
+	var maxT *Term
 	if x.Max != nil {
-		panic(execError{"3-index slices unsupported"})
+		m := vc.toIndex(vc.val(fr, st, x.Max).(Term), x.Max.Type())
+		maxT = &m
 	}
 	switch b := base.(type) {
 	case PtrVal: // pointer to array
@@ -1302,11 +1337,17 @@ func (vc *VC) sliceOp(fr *Frame, st *State, x *ssa.Slice) (forks []*State) {
 		} else {
 			hi = b.Len
 		}
+		capLimit := b.Cap
+		newCap := vc.iSub(b.Cap, lo)
 		okc := And(vc.iLe(vc.idx(0), lo, true), vc.iLe(lo, hi, true), vc.iLe(hi, b.Cap, true))
+		if maxT != nil {
+			okc = And(vc.iLe(vc.idx(0), lo, true), vc.iLe(lo, hi, true), vc.iLe(hi, *maxT, true), vc.iLe(*maxT, capLimit, true))
+			newCap = vc.iSub(*maxT, lo)
+		}
 		if ps := vc.safe(fr, st, okc, "bounds", x.Pos()); ps != nil {
 			forks = append(forks, ps)
 		}
-		fr.env[x] = SliceVal{Base: b.Base, Off: vc.iAdd(b.Off, lo), Len: vc.iSub(hi, lo), Cap: vc.iSub(b.Cap, lo), IsNil: b.IsNil}
+		fr.env[x] = SliceVal{Base: b.Base, Off: vc.iAdd(b.Off, lo), Len: vc.iSub(hi, lo), Cap: newCap, IsNil: b.IsNil}
 	case Term:
 		// string slicing
 		if b.S.Eq(SStr) {
@@ -1500,7 +1541,7 @@ func (vc *VC) ufCall(sym string, sig *types.Signature, args []Val) []Val {
 	var targs []Term
 	for _, a := range args {
 		switch a.(type) {
-		case Term, StructVal, ArrVal:
+		case Term, StructVal, ArrVal, IfaceVal, SymIface:
 			targs = append(targs, vc.flattenVal(a)...)
 		default:
 			panic(execError{fmt.Sprintf("uninterpreted function %s applied to %T", sym, a)})
@@ -1515,10 +1556,17 @@ func (vc *VC) ufCall(sym string, sig *types.Signature, args []Val) []Val {
 			panic(execError{"uninterpreted function " + sym + " with unsupported result type"})
 		}
 		var ts []Term
+		shape := ""
+		for _, t := range targs {
+			shape += "_" + sanitize(t.S.String())
+		}
 		for k, s := range sorts {
 			nm := sym
 			if rs.Len() > 1 || len(sorts) > 1 {
 				nm = fmt.Sprintf("%s.%d.%d", sym, i, k)
+			}
+			if strings.HasPrefix(sym, "fn!") && !strings.HasPrefix(sym, "fn!github") {
+				nm += "!" + fmt.Sprint(len(targs)) + shape // function parameters may be applied to values of different shapes
 			}
 			ts = append(ts, vc.ufApp(nm, s, targs...))
 		}
@@ -1542,7 +1590,12 @@ func (vc *VC) callStatic(fr *Frame, st *State, fn *ssa.Function, args []Val, bin
 			return []Outcome{{St: st}}
 		}
 		if vc.eng.inlineExternal[full] && len(fn.Blocks) > 0 {
-			return vc.callFunction(fn, args, bind, st, fr)
+			vc.assume("A-STDSRC")
+			base := len(st.pc)
+			w0 := st.extWrites
+			pre := st.Clone()
+			outs := vc.callFunction(fn, args, bind, st, fr)
+			return vc.mergePure(pre, base, w0, outs)
 		}
 		panic(execError{"call to external function without assumed contract: " + full})
 	}
